@@ -347,15 +347,25 @@ class Explorer:
             return ('subslice', v, elem[1:])
         raise CannotAnalyse('project %r' % (elem,))
 
+    @staticmethod
+    def key(loc):
+        """memory key of a location: addresses read from unchanged places are the same address whatever the epoch of the read
+        (entries behind pointers are wiped by every opaque effectful call, so a normalised key can never give a stale hit)"""
+        base, path = loc[0], loc[1]
+        if base[0] == 'ext':
+            base = ('ext', noepoch(base[1]))
+        return (base, tuple((e[0], noepoch(e[1])) + tuple(e[2:]) if e[0] == 'i' else e for e in path))
+
     def load(self, st, fr, loc):
-        base, path = loc
+        kbase, kpath = self.key(loc)
+        base, path = loc[0], loc[1]
         mem = st.mem
-        if loc in mem:
-            v = mem[loc]
+        if (kbase, kpath) in mem:
+            v = mem[(kbase, kpath)]
         else:
             v = None
-            for n in range(len(path) - 1, -1, -1):
-                pre = (base, path[:n])
+            for n in range(len(kpath) - 1, -1, -1):
+                pre = (kbase, kpath[:n])
                 if pre in mem:
                     v = mem[pre]
                     for e in path[n:]:
@@ -365,17 +375,17 @@ class Explorer:
                 v = self.base_value(st, fr, base)
                 for e in path:
                     v = self.project(v, e)
-        children = [(k[1][len(path):], vv) for k, vv in mem.items()
-                    if k[0] == base and len(k[1]) > len(path) and k[1][:len(path)] == path]
+        children = [(k[1][len(kpath):], vv) for k, vv in mem.items()
+                    if k[0] == kbase and len(k[1]) > len(kpath) and k[1][:len(kpath)] == kpath]
         if children:
             return ('upd', v, tuple(sorted(children, key=repr)))
         return v
 
     def store(self, st, loc, val):
-        base, path = loc
-        for k in [k for k in st.mem if k[0] == base and len(k[1]) > len(path) and k[1][:len(path)] == path]:
+        kbase, kpath = self.key(loc)
+        for k in [k for k in st.mem if k[0] == kbase and len(k[1]) > len(kpath) and k[1][:len(kpath)] == kpath]:
             del st.mem[k]
-        st.mem[loc] = val
+        st.mem[(kbase, kpath)] = val
 
     # ---------------------------------------------------------------- operands
     def const(self, o):
@@ -606,6 +616,18 @@ class Explorer:
                 self._note_store(st, fr, b, t, l1, v0)
                 ret = ('c', ('zst', '()'))
                 handled = True
+            elif re.match(r'^std::option::Option::<T>::(as_mut|as_ref)$', name) and len(args) == 1:
+                # &mut Option<T> whose content is known to be Some: Some(&mut payload)
+                loc = self.ptr_loc(args[0])
+                cur = strip_upd(self.load(st, fr, loc))
+                if cur[0] == 'agg' and cur[1] == 'adt' and cur[2] == 'Some' and cur[5].endswith('Option'):
+                    inner = (loc[0], loc[1] + (('v', 'Some'), ('f', '0')))
+                    ret = ('agg', 'adt', 'Some', ('0',), (('ref', inner, name.endswith('as_mut')),), 'std::option::Option')
+                    pure = True
+            elif re.match(r'^std::option::Option::<T>::(unwrap|expect)$', name) and args:
+                a0 = strip_upd(args[0])
+                if a0[0] == 'agg' and a0[1] == 'adt' and a0[2] == 'Some' and a0[5].endswith('Option') and a0[4]:
+                    ret, pure = a0[4][0], True
             if handled:
                 ev['moved'] = True
                 ev['inlined'] = True     # effects are modelled exactly: no wipe of pointer memory
@@ -793,7 +815,7 @@ class Explorer:
                     return
                 st.headers = st.headers | {b}
                 pre = {}
-                for l in self.loop_havoc[b][0]:
+                for l in set(self.loop_havoc[b][0]) | set(self.mut_borrowed):
                     pre[l] = self.load(st, self.top, (('loc', self.top.id, l), ()))
                 self._havoc(st, b)
                 st.path.events.append({'k': 'loophead', 'bb': b, 'depth': 0, 'pre': pre})
